@@ -247,3 +247,14 @@ def run(ck):
                 # increment not inside a loop
                 i_ok = i_ok and not any(x is incs[0] for x in cfg.events_after(f, incs[0]))
                 ck.ob("C11-R5", name, t_ok and i_ok, e.loc, f, "resolved==total test dominates resolve=%s; counter incremented once before the test=%s" % (t_ok, i_ok))
+                # values are stored at the input's own position (argument order), never at the running counter
+                subs = [x for x in f.events(("subscript", "call")) if (x["k"] == "subscript" and _field(x.get("base"), "::results")) or
+                        (x["k"] == "call" and x.get("op") == "[]" and _field(x.get("recv"), "::results"))]
+                for sx in subs:
+                    idx = sx.get("idx") or ((sx.get("args") or [{}])[0])
+                    it = idx.get("t") or ""
+                    by_pos = _field(idx, "WhenContinuation::index") or it in ("index", "this->index")
+                    by_counter = "resolved" in it
+                    ck.ob("C11-R5", name + "/stored-at-own-position", by_pos and not by_counter, sx.loc, f,
+                          "results[%s]" % it if by_pos and not by_counter else
+                          "the value is stored at results[%s]: completion order, not argument order" % it)
